@@ -83,6 +83,7 @@ impl Recorder {
 thread_local! {
     static LOCAL_RECORDER: RefCell<Option<Arc<Recorder>>> = const { RefCell::new(None) };
     static LOCAL_CAPACITY: Cell<usize> = const { Cell::new(0) };
+    static LOCAL_LIGHT: Cell<bool> = const { Cell::new(false) };
     static LOCAL_CONTROLLER: RefCell<Option<Arc<dyn Controller>>> = const { RefCell::new(None) };
 }
 
@@ -136,6 +137,17 @@ pub fn capacity(default: usize) -> usize {
         },
         n => n,
     }
+}
+
+/// Light recording for the current thread: actors report sizes instead of their full state
+/// (for histories with very large backlogs).
+pub fn set_local_light(light: bool) {
+    LOCAL_LIGHT.with(|l| l.set(light));
+}
+
+/// Whether light recording is on for the current thread.
+pub fn light() -> bool {
+    LOCAL_LIGHT.with(|l| l.get())
 }
 
 /// Decides when a task that reached a schedule point may continue.
